@@ -19,7 +19,7 @@ func init() {
 		Level: "other",
 		Explanation: "Decided (structural necessary conditions of 'no input can crash, hang or exhaust the process'; classes of failures are removed, their absence is not proven): (R2.1) a tokenizer error ends the token stream (the lookahead becomes EOF) or is checked at every call site, so no parse loop can spin on an unreadable byte; (R2.3) sizes read from the file are bounded before they reach make(): stream bodies are read in constant-bounded pieces, the object-stream table by the header size, the worksheet grid by a constant, and the page count is the number of leaves, not /Count; (R2.4) file-derived slice bounds and indices are guarded on both sides (object-stream offsets, /Index pairs, /W widths); (R2.5) every integer division in the predictor code has a divisor proven >= 1; (R2.6) every recursive call-graph cycle is either structurally guarded (depth counter compared with a bound and incremented along the cycle, a visited/on-path set tested and filled, an in-progress set) or is recursion over an already materialised tree listed in the checker; loops that follow file references carry a counter or visited test that dominates their back edge; the XObject depth counter is incremented and decremented exactly once on every path; (R2.7) every dereference of a format-specific reader in the Extractor happens where only that format is possible (finite dataflow over the format constants, with callee summaries). " +
 			"Not decided: absence of all panics/hangs/OOM (unproven bounds checks elsewhere, decompression bombs, regexp cost), timing.",
-		Rules: []func(*eng.Ctx){ruleTokenErr, ruleAllocBound, ruleIndexBound, ruleDivGuard, ruleRecGuard, ruleRefLoops, ruleDepthBalance, ruleFormatState, ruleParsedIndex, ruleWrapLoop, roleRule("R2.R", "core", "reader", "pages", "font"), ruleVisitedOnlyGrows, ruleObjStmIndexGuard},
+		Rules: []func(*eng.Ctx){ruleTokenErr, ruleAllocBound, ruleIndexBound, ruleDivGuard, ruleRecGuard, ruleRefLoops, ruleDepthBalance, ruleFormatState, ruleParsedIndex, ruleWrapLoop, roleRule("R2.R", "core", "reader", "pages", "font"), ruleVisitedOnlyGrows, ruleObjStmIndexGuard, ruleWeakBound},
 	})
 }
 
@@ -708,8 +708,72 @@ func ruleRecGuard(c *eng.Ctx) {
 			c.Ok(R, key, pos, "unlisted cycle with a structural guard: "+how)
 			continue
 		}
+		if genericTreeRecursion(scc) {
+			c.Ok(R, key, pos, "unlisted cycle that descends an in-memory structure: every recursive call passes a part (field, element) of its own parameter and no member follows file references")
+			continue
+		}
 		c.Viol(R, key, pos, "new recursive cycle in the call graph that is neither guarded nor classified as recursion over a materialised tree")
 	}
+}
+
+// genericTreeRecursion: every call between members of the cycle passes, in some position, a value selected from the
+// caller's own parameter (a field, an element, a range value: the recursion descends a structure that is already in
+// memory), and no member resolves file references (where cycles are possible).
+func genericTreeRecursion(scc []*ssa.Function) bool {
+	in := map[*ssa.Function]bool{}
+	for _, f := range scc {
+		in[f] = true
+	}
+	edges := 0
+	for _, f := range scc {
+		params := map[ssa.Value]bool{}
+		for _, p := range f.Params {
+			params[p] = true
+		}
+		ok := true
+		eng.Instrs(f, false, func(i ssa.Instruction) {
+			ci, isCall := i.(ssa.CallInstruction)
+			if !isCall {
+				return
+			}
+			n := eng.CalleeName(ci)
+			if strings.Contains(n, "Resolve") || strings.HasSuffix(n, ".GetObject") {
+				ok = false
+				return
+			}
+			cal := ci.Common().StaticCallee()
+			if cal == nil || !in[cal] {
+				return
+			}
+			edges++
+			descends := false
+			for _, a := range ci.Common().Args {
+				if params[a] {
+					continue // the same node passed on unchanged is not a descent
+				}
+				selected, fromParam := false, false
+				for w := range eng.Slice(a, nil) {
+					switch w.(type) {
+					case *ssa.FieldAddr, *ssa.Field, *ssa.IndexAddr, *ssa.Index, *ssa.Lookup, *ssa.Next, *ssa.TypeAssert:
+						selected = true
+					}
+					if params[w] {
+						fromParam = true
+					}
+				}
+				if selected && fromParam {
+					descends = true
+				}
+			}
+			if !descends {
+				ok = false
+			}
+		})
+		if !ok {
+			return false
+		}
+	}
+	return edges > 0
 }
 
 // genericRecGuard looks for a guard in the members of a recursive cycle without relying on names:
@@ -862,6 +926,24 @@ func ruleRefLoops(c *eng.Ctx) {
 		}
 		c.Check(ok, R, "pages.(*Page).inheritedAttr#bound", fn.Pos(), "every trip around the /Parent walk passes the depth bound", "the /Parent walk can go around without passing its depth bound: a cyclic /Parent chain loops forever")
 	}
+	// every other loop of the module that takes the single /Prev step (ParsePrevXRef) is held to the same clause
+	if step := c.P.Func("core.(*XRefParser).ParsePrevXRef"); step != nil {
+		for _, f := range c.P.ModuleFuncs() {
+			if eng.FuncName(f) == "core.(*XRefParser).ParseAllXRefs" || strings.Contains(eng.FuncName(f), eng.PositivePkg) {
+				continue
+			}
+			inLoop := false
+			for _, ci := range eng.Calls(f, false, func(string, ssa.CallInstruction) bool { return true }) {
+				if ci.Common().StaticCallee() == step && eng.InLoop(ci.Block()) {
+					inLoop = true
+				}
+			}
+			if !inLoop {
+				continue
+			}
+			c.Check(visitedSetInLoop(f), R, eng.FuncName(f)+"#prev-walk", f.Pos(), "a visited set of /Prev offsets is tested and filled inside the loop", "the /Prev chain is followed by a loop of its own that does not remember visited offsets: a /Prev cycle loops forever and exhausts memory")
+		}
+	}
 	if fn := c.P.Func("core.(*XRefParser).ParseAllXRefs"); fn == nil {
 		c.Undec(R, "core.(*XRefParser).ParseAllXRefs", token.NoPos, "anchor not found")
 	} else {
@@ -924,6 +1006,28 @@ func ruleRefLoops(c *eng.Ctx) {
 		}
 		c.Check(ok, R, "core.(*XRefParser).ParseAllXRefs#visited", fn.Pos(), "a visited set of /Prev offsets is tested and filled inside the loop", "the /Prev chain is followed without remembering visited offsets: a /Prev cycle loops forever")
 	}
+}
+
+// visitedSetInLoop: fn tests and fills a map it created, inside a loop.
+func visitedSetInLoop(fn *ssa.Function) bool {
+	look, ins := false, false
+	eng.Instrs(fn, false, func(in ssa.Instruction) {
+		switch x := in.(type) {
+		case *ssa.Lookup:
+			if eng.InLoop(x.Block()) {
+				if _, isMk := x.X.(*ssa.MakeMap); isMk {
+					look = true
+				}
+			}
+		case *ssa.MapUpdate:
+			if eng.InLoop(x.Block()) {
+				if _, isMk := x.Map.(*ssa.MakeMap); isMk {
+					ins = true
+				}
+			}
+		}
+	})
+	return look && ins
 }
 
 // ---------------------------------------------------------------- depth balance
